@@ -247,7 +247,15 @@ def b_dsum(ex, st, node, args, kw):
     return VNum(dict_sum(d.keys, d.vals), "real")
 
 
+def b_reversed_seq(ex, st, node, args, kw):
+    (x,) = args
+    if isinstance(x, (VTup, VPyList)):
+        x = ex.as_seq(x)
+    return ex.rev(st, x)
+
+
 BUILTINS = {
+    "reversed_seq": b_reversed_seq,
     "dsum": b_dsum,
     "implies": b_implies, "floor": b_floor, "div": b_div,
     "len": b_len, "int": b_int, "float": b_float, "Fraction": b_Fraction, "tuple": b_tuple, "list": b_list,
